@@ -9,8 +9,7 @@
   Full statement (goal): `∀ ops, (ops.foldl step init).inv` for the whole mutating API, and
   `isRemoved` monotone along every history.
 -/
-import XotModel.Lemmas.FinvOps1
-import XotModel.Lemmas.FinvOps4
+import XotModel.Lemmas.FinvReach
 
 namespace XotModel.Props
 open XotModel
@@ -167,5 +166,83 @@ theorem C04_removeInsignificantWhitespace (f : Forest) (node : Nat) (h : f.Inv) 
 example : let f : Forest := { roots := [.node 0 (.element 1) [.node 1 (.text ['x']) [], .node 2 (.element 2) [], .node 3 (.text ['y']) []], .node 4 (.element 3) [.node 5 (.text ['z']) []]], next := 6 }
     f.inv = true ∧ (f.append 4 2).2 = .ok ∧ (f.append 4 2).1.inv = true ∧
     (f.append 4 1).2 = .ok ∧ (f.append 4 1).1.inv = true ∧ (f.insertAfter 5 3).1.inv = true := by decide
+
+/-! ### Node maps, `any_append`, `text_content_mut` -/
+
+/-- `MutableNodeMap::insert(key, value)`.  The entry value must be of the map's kind — the Rust API
+    builds it from the key and the value, so it always is; the model's function takes a raw
+    `Value`, and for a value of another kind the statement is false (witness below). -/
+theorem C04_mapInsert (f : Forest) (k : Forest.MapKind) (parent : Nat) (entry : Value) (h : f.Inv)
+    (hm : k.matches entry = true) : (f.mapInsert k parent entry).1.Inv :=
+  Forest.mapInsert_inv h k parent entry hm
+
+/-- `MutableNodeMap::insert_node` (crate-private; the public entry points `append_attribute_node`,
+    `append_namespace_node`, `any_append` check that the parent is an element first). -/
+theorem C04_mapInsertNode (f : Forest) (k : Forest.MapKind) (parent node : Nat) (h : f.Inv)
+    (he : f.isElement parent = true) : (f.mapInsertNode k parent node).1.Inv :=
+  Forest.mapInsertNode_inv h k node he
+
+theorem C04_appendEntryNode (f : Forest) (k : Forest.MapKind) (parent child : Nat) (h : f.Inv) :
+    (f.appendEntryNode k parent child).1.Inv := Forest.appendEntryNode_inv h k parent child
+
+theorem C04_anyAppend (f : Forest) (parent child : Nat) (h : f.Inv) : (f.anyAppend parent child).1.Inv :=
+  Forest.anyAppend_inv h parent child
+
+theorem C04_textContentSet (f : Forest) (node : Nat) (s : Str) (h : f.Inv) :
+    (f.textContentSet node s).1.Inv := Forest.textContentSet_inv h node s
+
+/-- Outside the API the two guarded statements above are false of the model: a document value
+    inserted as an "attribute", and `insert_node` under a text node. -/
+example : let f : Forest := { roots := [.node 0 (.element 1) [], .node 1 (.text ['x']) [], .node 2 (.attribute 3 ['v']) []], next := 3 }
+    f.inv = true ∧ (f.mapInsert .attributes 0 .document).1.inv = false ∧
+    (f.mapInsertNode .attributes 1 2).1.inv = false := by decide
+
+/-! ### Handles are never re-used: `is_removed` is monotone
+
+`Forest.Le f f'`: `next` has not decreased and every handle of `f'` is a handle of `f` or at least
+`f.next`.  It holds for every call of the model — including `replace`, `element_wrap`,
+`element_unwrap`, `clone_node` — for all forests and all arguments, without any invariant. -/
+
+theorem C04_step_le (f : Forest) (o : Op) : Forest.Le f (f.step o) := Forest.le_step f o
+
+/-- A removed handle stays removed by any single call … -/
+theorem C04_isRemoved_monotone (f : Forest) (o : Op) (h : Nat) (hr : f.isRemoved h = true) :
+    (f.step o).isRemoved h = true := Forest.isRemoved_mono (Forest.le_step f o) hr
+
+/-- … and along every history. -/
+theorem C04_isRemoved_history (f : Forest) (ops : List Op) (h : Nat) (hr : f.isRemoved h = true) :
+    (f.run ops).isRemoved h = true := Forest.isRemoved_mono (Forest.le_run f ops) hr
+
+/-- A handle handed out by a creation call is fresh: it was neither live nor removed before. -/
+theorem C04_fresh_handle (f : Forest) (v : Value) (hi : f.Inv) :
+    f.isLive (f.newNode v).2 = false ∧ f.isRemoved (f.newNode v).2 = false := by
+  constructor
+  · cases hl : f.isLive (f.newNode v).2 with
+    | false => rfl
+    | true => exact absurd (hi.below _ (Forest.mem_allHandles_of_isLive hl)) (Nat.lt_irrefl _)
+  · simp [Forest.isRemoved, Forest.newNode]
+
+/-! ### Histories -/
+
+/-- One step: every call in `Op.core` (everything except `replace`, `element_wrap`,
+    `element_unwrap`, `clone_node`) preserves the invariant, whatever its arguments and outcome. -/
+theorem C04_step (f : Forest) (o : Op) (h : f.Inv) (hc : o.core = true) : (f.step o).Inv :=
+  Forest.step_inv h o hc
+
+/-- Every forest reachable from the empty store by calls in `Op.core`, with arbitrary arguments
+    (live, removed, or never created), satisfies the invariant. -/
+theorem C04_reach (ops : List Op) (hc : ∀ o ∈ ops, o.core = true) : (Forest.init.run ops).Inv :=
+  Forest.run_inv ((Forest.inv_iff _).mp C04_init) ops hc
+
+theorem C04_reach_bool (ops : List Op) (hc : ∀ o ∈ ops, o.core = true) : (Forest.init.run ops).inv = true :=
+  (Forest.inv_iff _).mpr (C04_reach ops hc)
+
+/-- Non-vacuity: a history that creates, moves, merges text, removes, and calls on a removed
+    handle; evaluated. -/
+example : let ops : List Op := [.newElement 1, .newText ['x'], .newElement 2, .newText ['y'],
+      .append 0 1, .append 0 2, .append 0 3, .attrInsert 0 7 ['v'], .remove 2, .append 0 2, .setText 1 ['z']]
+    (∀ o ∈ ops, o.core = true) ∧ (Forest.init.run ops).inv = true ∧
+    (Forest.init.run ops).isRemoved 2 = true ∧ (Forest.init.run ops).isRemoved 3 = true ∧
+    (Forest.init.run ops).allHandles = [0, 4, 1] := by decide
 
 end XotModel.Props
